@@ -706,6 +706,36 @@ theorem C16_rollbacks_restore (f0 : Frame) (hist : List Op) (hc : Created f0) :
     intro hne
     rw [h1, unchanged _ (fun h => hne (h3.2 h))]
 
+/-- **no write stores anything before both conversion stages have passed, and a creation that h5py refuses leaves no
+    frame behind**: `write_rows` in its two stages (NumPy's conversion, h5py's acceptance of the text cells) ends in
+    the atomic model's state; `create_data_frame` effect by effect on the block (name check, NumPy's conversion
+    before anything is created, the half-built frame `DataFrame.create_new` makes, `write_direct`, the handler that
+    deletes the half-built frame) ends in the block the atomic creation gives — the block as it was when refused;
+    and one cell converts in one step exactly when it passes both stages -/
+theorem C16_two_stage_writes :
+    (∀ s rows idx, (fxWriteRows s rows idx).1 = (sWriteRows s rows idx).1 ∧
+      ((fxWriteRows s rows idx).2 = none ↔ (sWriteRows s rows idx).2 = none)) ∧
+    (∀ b name cols data,
+      (fxBlkCreate b name cols data).1 = (blkCreate b name (sCreated (createWith cols data))).1 ∧
+      ((fxBlkCreate b name cols data).2 = none ↔ (blkCreate b name (sCreated (createWith cols data))).2 = none) ∧
+      ((fxBlkCreate b name cols data).2 ≠ none → (fxBlkCreate b name cols data).1 = b)) ∧
+    (∀ t v w, conv t v = .ok w ↔ (convNp t v = .ok w ∧ h5Ok t w = true)) := by
+  refine ⟨fxWriteRows_eq, ?_, fun _ _ _ => conv_two_stage⟩
+  intro b name cols data
+  obtain ⟨h1, h2⟩ := fxBlkCreate_eq b name cols data
+  refine ⟨h1, h2, ?_⟩
+  intro hne
+  rw [h1]
+  have hne' : (blkCreate b name (sCreated (createWith cols data))).2 ≠ none := fun h => hne (h2.2 h)
+  unfold blkCreate at hne' ⊢
+  split
+  · rfl
+  · rename_i hn
+    simp only [hn, if_false] at hne'
+    cases hm : sCreated (createWith cols data) with
+    | error e => rfl
+    | ok s => rw [hm] at hne'; exact absurd rfl hne'
+
 /-- **text survives storage**: decoding the stored bytes of any string gives the string back, and the conversion
     of a stored cell of the column's type is that cell — for every string (non-ASCII, empty, any length) -/
 theorem C16_text_roundtrip (s : String) (t : ColType) (v : Val) :
